@@ -20,7 +20,7 @@ TRUSTED = [
     'completeness of named_modules (every reachable module is visited under its first pre-order path) is not proved; '
     'the tie compares the model walk with torch\'s on every generated tree',
 ]
-THEOREMS = ['registered_exactly_eligible', 'registered_once', 'others_untouched']
+THEOREMS = ['registered_exactly_eligible', 'registered_once', 'others_untouched', 'walk_names_are_paths', 'walk_reaches_everything']
 NOTES = 'Theorems hold for every graph, pattern outcome table and root; walk completeness is partial (see trusted base).'
 
 
